@@ -21,7 +21,6 @@ use tvh::rng::Rng;
 use tvh::{guarded, Args};
 
 const HEADER: &str = "From TV Require Import Base.Prelude Text.BinOpFold Text.Grammar Text.Logical Text.GrammarProofs Generated.Constants.";
-const F12_MSG: &str = "Exist query without a field isn't allowed";
 
 // ------------------------------------------------------------------ Gallina printers
 fn cstr(s: &str) -> String {
